@@ -544,6 +544,24 @@ def check_concurrent(case, nthreads):
     d = diff(before, after)
     if d:
         viol.append(f"{nthreads} concurrent runs of one plan changed the caller's objects: {d}")
+    # ... also while ANOTHER thread is in the middle of building on the plan (inside `with plan.scope(...)`): a run works on
+    # its own copy, so it must neither wait for nor disturb the builder (the copy must not share the plan's scope lock)
+    held = {}
+
+    def runner():
+        held["r"] = do_run(dict(case, dry_run=False), plan, registry, output)
+
+    with plan.scope("builder-holds-this-scope-open"):
+        t = threading.Thread(target=runner, daemon=True)
+        t.start()
+        t.join(20)
+        blocked = t.is_alive()
+    t.join(120)
+    if blocked:
+        viol.append("a run of the plan from another thread did not finish while the caller was inside `with plan.scope(...)`: "
+                    "the run's private copy shares state (the scope lock) with the caller's plan")
+    elif "r" in held and (canon_value(held["r"][0]), canon_exc(held["r"][1])) != (canon_value(seq_v), canon_exc(seq_e)):
+        viol.append("a run started while the caller held a scope open gave a different result")
     want = (canon_value(seq_v), canon_exc(seq_e))
     for k, (v, e) in enumerate(results):
         if k == nthreads - 1 and nthreads > 2:
